@@ -1,12 +1,16 @@
 #!/bin/bash
-# usage: trymutant.sh <patch.diff> <property> [extra check args]  -- applies the patch to /repo, runs the quick check, reverts.
+# usage: trymutant.sh <patch.diff> <property> [extra check args]
+# Applies the patch to a fresh scratch worktree of /repo's HEAD (never to /repo itself), runs the check against it
+# (VERIF_REPO), prints the verdict lines, removes the worktree.
 set -u
-patch=$1; prop=$2; shift 2
-cd /repo || exit 2
-if ! git diff --quiet; then echo "repo dirty"; exit 2; fi
-git apply "$patch" 2>/dev/null || git apply -3 "$patch" 2>/dev/null || patch -p1 -F3 -s < "$patch" || { echo "patch does not apply"; git checkout -- . ; exit 2; }
-git reset -q
-cd /verif && ./check "$prop" --no-evidence "$@" > /tmp/trymutant.out 2>&1
+patch=$(readlink -f "$1"); prop=$2; shift 2
+wt=$(mktemp -d /tmp/mt-XXXXXX); rmdir $wt
+git -C /repo worktree add -q --detach $wt HEAD || exit 2
+cd $wt
+git apply "$patch" 2>/dev/null || git apply -3 "$patch" 2>/dev/null || patch -p1 -F3 -s < "$patch" || { echo "patch does not apply"; cd /; git -C /repo worktree remove --force $wt; exit 2; }
+out=$(mktemp /tmp/trymutant-XXXXXX.out)
+cd /verif && VERIF_REPO=$wt ./check "$prop" --no-evidence "$@" > $out 2>&1
 rc=$?
-git -C /repo checkout -- . ; git -C /repo clean -fdq
-echo "exit=$rc"; grep -E "^VIOLATION|clause=|KNOWN-FINDING|infrastructure" /tmp/trymutant.out | cut -c1-260 | head -12
+git -C /repo worktree remove --force $wt
+echo "exit=$rc"; grep -E "^VIOLATION|clause=|KNOWN-FINDING|infrastructure" $out | cut -c1-300 | head -12
+rm -f $out
